@@ -4,7 +4,7 @@
 source "$(dirname "${BASH_SOURCE[0]}")/lib.sh"
 tier="$1"; out="$2"; rc=0
 if [ "$tier" = thorough ]; then n=400000; else n=40000; fi
-vout=$("$VERIF_DIR/variants.sh" compare 9 "$n" rt rt-dbg 2>&1); vrc=$?
+vout=$("$VERIF_DIR/variants.sh" compare 9 "$n" rt rt-dbg swar sse42-ct avx2-ct nostd 2>&1); vrc=$?
 echo "$vout" | grep -E "^(COMPARED|MISMATCH|BUILD-FAILED|RUN-FAILED)" | sed 's/^/  [C09 profiles] /'
 if [ $vrc -eq 2 ]; then echo "HARNESS-ERROR variant build failed" >&2; exit 2; fi
 if [ $vrc -ne 0 ]; then
